@@ -20,7 +20,9 @@ RULE = (
     "compute_arrays_in_parallel x batch_size. Oracle over the recorded event sequence and the finalized plan: exactly one "
     "compute_start first and one compute_end last; per operation exactly one operation_start before and one operation_end after "
     "all of its task_end events; sum of task_end.num_tasks per operation == primitive_op.num_tasks == len(list(pipeline.mappable)); "
-    "FinalizedPlan.num_tasks == sum over operations; the set of operations in the events == operations of the plan. "
+    "FinalizedPlan.num_tasks == sum over operations; the set of operations in the events == operations of the plan; on the in-process "
+    "executors the task bodies actually invoked are counted per operation (pipelines wrapped by a counting function) and must equal the "
+    "advertised number, each task input once; a second registered callback sees the same events. "
     "Non-trivial = the plan has an operation whose task list is not the plain chunk grid of a single output (region store, "
     "multi-output, rechunk, fused with other counts) or >= 2 operations in one generation; distinct = canonical JSON."
 )
@@ -146,13 +148,45 @@ def check_case(case) -> Outcome:
             else:
                 ex = H.make_executor(ename)
             cb = H.RecordingCallback()
+            cb2 = H.RecordingCallback()
+            counting = None
+            if ename in ("threads", "single-threaded"):
+                ex = counting = H.CountingExecutor(ex)
             try:
-                cubed.compute(*outs, executor=ex, callbacks=[cb], optimize_graph=case["optimize"], _return_in_memory_array=False)
+                cubed.compute(*outs, executor=ex, callbacks=[cb, cb2], optimize_graph=case["optimize"], _return_in_memory_array=False)
             except Exception as e:
                 labels.add(f"failed:{type(e).__name__}(C17)")
                 return Outcome(labels=tuple(labels))
         for code, msg in check_events(cb.events, fp):
             fails.append(Failure(code, msg))
+        # every registered callback sees the same events
+        strip = lambda evs: sorted((e[0], e[1], e[2] if len(e) > 2 and e[0] == "task_end" else None) for e in evs)  # noqa: E731
+        if strip(cb.events) != strip(cb2.events):
+            fails.append(Failure("second-callback-sees-different-events", f"first: {len(cb.events)} events, second: {len(cb2.events)}"))
+        # tasks actually run, counted at the task body (in-process executors; the schedule-owning executor keeps its own list)
+        ran = None
+        if counting is not None:
+            ran = {n: v for n, v in counting.calls.items()}
+        elif ename == "schedule":
+            ran = {}
+            for (n, m) in ex.tasks_run:
+                ran.setdefault(n, []).append(m)
+        if ran is not None:
+            labels.add("task-bodies-counted")
+            for n, d in fp.dag.nodes(data=True):
+                if d.get("type") == "op" and "primitive_op" in d:
+                    got = ran.get(n, [])
+                    if len(got) != d["primitive_op"].num_tasks:
+                        fails.append(Failure(f"tasks-run-vs-advertised:{d.get('op_name', '?')}", f"{n}: the executor ran {len(got)} task bodies, the plan advertises {d['primitive_op'].num_tasks}"))
+                        break
+                    # block keys (tuples of names / integers) identify a task input; other inputs (lazy arrays of create-arrays,
+                    # rechunk copy specs) have no reliable identity in their repr and are only counted
+                    if n != "create-arrays" and all(g.startswith("('") or g.startswith("(\"") for g in got) and len(set(got)) != len(got):
+                        fails.append(Failure(f"task-run-twice:{d.get('op_name', '?')}", f"{n}: some task input was run more than once without retries or backups"))
+                        break
+            extra = set(ran) - {n for n, d in fp.dag.nodes(data=True) if d.get("type") == "op" and "primitive_op" in d}
+            if extra:
+                fails.append(Failure("tasks-run-for-unknown-op", f"{sorted(extra)[:3]}"))
         # non-triviality classes
         kinds = [d.get("op_name") for n, d in fp.dag.nodes(data=True) if d.get("type") == "op" and "primitive_op" in d]
         special = False
